@@ -5,6 +5,7 @@ import L21.Model.Geom
 import L21.Model.Aff
 import L21.Driver.GdsIO
 import L21.Driver.LefRawIO
+import L21.Driver.RawProtoIO
 /-
 Line-protocol operations: `<op> <sexpr>*` ↦ result line.
 -/
@@ -135,6 +136,8 @@ def dispatch (op : String) (args : List Sexp) : String :=
   | "gds.read" => opGdsRead args
   | "gds.c03" => opGdsRead (args.take 1)
   | "lefraw.import" => opLefRawImport args
+  | "rawproto.export" => opRawProtoExport args
+  | "rawproto.import" => opRawProtoImport args
   | "tf.apply" => opTfApply args
   | "tf.general" => "unsupported"
   | "raw.flatten" => opFlatten args
